@@ -35,8 +35,9 @@ func NetIPPrefix4ToIndexKey(prefix netip.Prefix) index.Key {
 }
 
 func EncodeLPMKey(data []byte, prefixLen PrefixLen) index.Key {
-	dataLen := (prefixLen + 7) / 8
-	if int(dataLen) > len(data) {
+	// Computed as int: (prefixLen + 7) wraps around in uint16 for prefixLen > 65528.
+	dataLen := (int(prefixLen) + 7) / 8
+	if dataLen > len(data) {
 		panic(fmt.Sprintf("invalid LPM key, data too short (%d) for prefix length (%d)", len(data), prefixLen))
 	}
 	key := make(index.Key, dataLen, dataLen+2)
@@ -55,7 +56,7 @@ func DecodeLPMKey(key index.Key) (data []byte, prefixLen PrefixLen) {
 	}
 	data = key[:len(key)-2]
 	prefixLen = binary.BigEndian.Uint16(key[len(key)-2:])
-	if int((prefixLen+7)/8) > len(data) {
+	if (int(prefixLen)+7)/8 > len(data) {
 		panic("prefix length too long in LPM key")
 	}
 	return
